@@ -86,8 +86,21 @@ def fl_str(x):
     return f"{n}/{d}"
 
 
+def kind_of(x):
+    """bool / int / float / str by `isinstance` (numpy.float64 is a float; numpy.int64 is NOT an int)."""
+    if isinstance(x, bool):
+        return "bool"
+    if isinstance(x, int):
+        return "int"
+    if isinstance(x, float):
+        return "float"
+    if isinstance(x, str):
+        return "str"
+    return type(x).__name__
+
+
 def canon_vals(v):
-    return json.dumps({k: [type(x).__name__, x] for k, x in sorted(v.items())}, sort_keys=True)
+    return json.dumps({k: [kind_of(x), float(x) if kind_of(x) == "float" else x] for k, x in sorted(v.items())}, sort_keys=True, default=str)
 
 
 def run_driver(lines, timeout=600):
